@@ -80,6 +80,19 @@ CLAIMED.update({
    note=FS_NOTE + " Value domains are finite samples."),
 })
 
+PROG_NOTE = ("Trusted: TLC; the recording observer (notifications appended under one lock); for C20 the replacement of the observers' clock by the model "
+             "clock and, in the threaded part, the deterministic scheduler's cooperative threading layer. Sequences are sampled by TLC simulation, not exhaustive.")
+CLAIMED.update({
+ "C15": dict(engine="progress", cat="model_checking", ref="6.C15",
+   technique="TLC: Progress.tla (notification protocol) model-checked; ProgressTrace.tla validates the notification sequences recording observers (alone / inside composites) received from real runs - registry histories and engine executions under the deterministic scheduler - joined with the calls that executed",
+   text="The protocol (enter first, exit once and last on every outcome, totals before running, every running followed by exactly one completed/failed, nothing running at exit when calls end normally or with an Exception, completed = total after success, per-scope run totals = executed calls, stale totals = calls examined, composite members identical) is a TLA+ specification; thousands of real runs (all failure patterns, cuts, dry runs, schedules, max_errors, retry, exception types incl. uberjob's own CallError/NodeError) are validated against it by TLC.",
+   note=PROG_NOTE),
+ "C20": dict(engine="progress", cat="model_checking", ref="6.C20",
+   technique="Progress.tla as a generator: TLC simulation emits legal notification sequences with ticks and render points anywhere; each is replayed into the real Console/HTML/IPython observers (model clock) over families of scope tuples, and into the HTML observer with its real update thread under the deterministic scheduler",
+   text="Spec-to-implementation replay: every generated sequence x scope family (ints, strings, mixed types, different lengths, unorderable same-type values, classes, None, tuples, frozensets) must render without raising (also inside the update thread), the last rendering mentioning a scope must show its final counts, and the attributed elapsed time must add up to the model's busy time; the threaded part explores interleavings of notifications with rendering/emission.",
+   note=PROG_NOTE),
+})
+
 checks = []
 for i in ids:
     if i not in CLAIMED:
@@ -112,6 +125,8 @@ m = {
          "kind_free_text": "TLA+ Engine.tla refining RunAbs.tla, checked by TLC; RunAbsTrace.tla monitor over executions of the real code under vf/detsched.py"},
         {"name": "filestore", "path": "/verif/spec/FileStore.tla", "serves_properties": ["C11", "C12"],
          "kind_free_text": "TLA+ FileStore.tla (staged write protocol + register) checked by TLC; FileStoreTrace.tla monitor over interposed file-operation traces of the real stores with injected faults"},
+        {"name": "progress", "path": "/verif/spec/Progress.tla", "serves_properties": ["C15", "C20"],
+         "kind_free_text": "TLA+ Progress.tla: monitor (ProgressTrace.tla) for recorded notifications, generator (ProgressGen.tla, TLC simulation) of sequences replayed into the bundled observers"},
         {"name": "caching", "path": "/verif/spec/Caching.tla", "serves_properties": ["C03", "C05", "C08", "C09", "C13", "C14"],
          "kind_free_text": "TLA+ Caching.tla (stale check, physical plan, store histories) checked by TLC; CachingTrace.tla monitor over histories executed on the real library with term-valued harness stores"},
     ],
